@@ -32,6 +32,7 @@ def run(ctx):
         ctx.guard("C03", "traits", lambda: vis.trait_census(ctx, prog, scope='for internals::generate::Generator$'))
         if c.startswith("unsafe"):
             ctx.guard("C03", "mirror", lambda: engine.mirror(ctx, prog))
+            ctx.guard("C03", "cursor", lambda: engine.pointer_cursor(ctx, prog))
             base = ctx.prog("dbg" if c.endswith("_dbg") else "rel")
             ctx.guard("C03", "enginemap", lambda: engine.engine_correspondence(ctx, base, prog))
         if c != "nodef":
